@@ -225,6 +225,8 @@ SECTION_VALUES = {
 NESTED_VALUES = {
     "named_types": {"byte": ["uint8_t", "my_byte"], "zz": ["t1", "t2"]},
     "zz_nested": {"k1": [1, 2], "k2": ["s"]},
+    # three levels deep (a built-in map of maps for C++, a new key elsewhere): copies that stop one level short alias these
+    "comment_styles": {"cpp-doxygen": [{"prefix": "//!"}, {"comment": "//! ", "suffix": "//!"}], "javadoc": [{"prefix": "/*!"}], "zz-style": [{"prefix": "#", "comment": "# "}]},
 }
 
 
@@ -326,7 +328,10 @@ def expected_section(case) -> typing.Tuple[dict, typing.Optional[str]]:
         if group:
             shorthand = std
             for k, v in group.items():
-                opts[k] = v
+                # a shorthand sets its DOCUMENTED group (and the standard / flavour it stands for) -- nothing else: whatever else
+                # the tree's table lists under the shorthand must not displace a value from any other source
+                if k in DOCUMENTED_GROUP or k in ("std", "std_flavor"):
+                    opts[k] = v
     if lang == "py":
         # documented in lang/py: "always enable serialization asserts for python" -- the option is not configurable there
         sec.setdefault("options", {})["enable_serialization_asserts"] = True
